@@ -164,6 +164,13 @@ class Bound:
                      self.kind)
 
 
+class NeedSplit(Exception):
+    """Arithmetic on a few free lanes: the caller enumerates their values."""
+
+    def __init__(self, lanes):
+        self.lanes = lanes
+
+
 class Registry:
     def __init__(self, d, name):
         self.d, self.name = d, name
@@ -203,9 +210,11 @@ class State:
         self.heap = {}
         self.n = 0
         self.notes = []
+        self.ivref = {}      # parameter name -> latest refined IvInt
 
     def fork(self):
         s = State()
+        s.ivref = dict(self.ivref)
         s.cube = dict(self.cube)
         s.neg = list(self.neg)
         s.n = self.n
@@ -404,6 +413,21 @@ class Interp:
             return v.value
         return v
 
+    def _convf(self, v, name):
+        """Folded module / class constants as interpreter values."""
+        if isinstance(v, FClassRef):
+            return ClsRef(v.cls)
+        if isinstance(v, EnumMember):
+            return v.value
+        if isinstance(v, dict):
+            return Registry({self._convk(a): self._convf(b, name)
+                             for a, b in v.items()}, name)
+        if isinstance(v, list):
+            return [self._convf(x, name) for x in v]
+        if isinstance(v, tuple):
+            return tuple(self._convf(x, name) for x in v)
+        return v
+
     def _convk(self, k):
         if isinstance(k, EnumMember):
             return k.value
@@ -524,6 +548,24 @@ class Interp:
                 try:
                     for t in targets:
                         self.assign(t, v, env2, st2, ctx)
+                except Raise as r:
+                    yield ("raise", r), env2, st2
+                    continue
+                yield ("next",), env2, st2
+        elif isinstance(n, ast.AugAssign):
+            load = copy.deepcopy(n.target)
+            for x in ast.walk(load):
+                if hasattr(x, "ctx"):
+                    x.ctx = ast.Load()
+            e = ast.copy_location(ast.BinOp(load, n.op, n.value), n)
+            ast.fix_missing_locations(e)
+            for v, env2, st2 in self.ev(e, env, st, ctx):
+                if isinstance(v, Raise):
+                    yield ("raise", v), env2, st2
+                    continue
+                env2 = dict(env2)
+                try:
+                    self.assign(n.target, v, env2, st2, ctx)
                 except Raise as r:
                     yield ("raise", r), env2, st2
                     continue
@@ -733,7 +775,9 @@ class Interp:
         if isinstance(v, Opaque):
             raise Unsupported("truth of opaque value %r" % v)
         if isinstance(v, IvInt):
-            raise Unsupported("truth of unvalidated int")
+            # truthy <=> != 0
+            yield from IvCmp(v, "==", 0, neg=True).split(self, env, st)
+            return
         if isinstance(v, NonInt):
             yield True, env, st
             return
@@ -755,7 +799,8 @@ class Interp:
                 return
             if e.id in ("int", "isinstance", "len", "hasattr", "list",
                         "super", "range", "type", "issubclass", "str",
-                        "bool", "getattr", "tuple", "max", "min"):
+                        "bool", "getattr", "tuple", "max", "min", "dict",
+                        "next", "any", "all"):
                 yield ("builtin", e.id), env, st
                 return
             if e.id in ("True", "False", "None"):
@@ -800,7 +845,16 @@ class Interp:
                         yield (bool(l) if l in (0, 1) else ABool(l)), env2, \
                             st2
                 elif isinstance(o, (tuple, list)):
-                    yield o[self.ev1(e.slice, env2, st2, ctx)], env2, st2
+                    for ix, e3, s3 in self.ev(e.slice, env2, st2, ctx):
+                        if isinstance(ix, Raise):
+                            yield ix, e3, s3
+                        elif not isinstance(ix, int):
+                            raise Unsupported("symbolic index %r" % (ix,))
+                        elif -len(o) <= ix < len(o):
+                            yield o[ix], e3, s3
+                        else:
+                            yield Raise("IndexError: tuple index out of "
+                                        "range", e), e3, s3
                 elif isinstance(o, dict):
                     k = self.ev1(e.slice, env2, st2, ctx)
                     if k not in o:
@@ -823,7 +877,21 @@ class Interp:
         elif isinstance(e, ast.BinOp):
             l = self.ev1(e.left, env, st, ctx)
             r = self.ev1(e.right, env, st, ctx)
-            yield self.binop(e.op, l, r), env, st
+            try:
+                yield self.binop(e.op, l, r), env, st
+            except NeedSplit as ns:
+                def conc(v, s_):
+                    if isinstance(v, int):
+                        return v
+                    return sum((lane_val(s_, x) or 0) << i
+                               for i, x in enumerate(lanes_of(v)))
+                for bits in range(1 << len(ns.lanes)):
+                    e2, s2 = self.forkenv(env, st)
+                    if all(assume(s2, ln, (bits >> i) & 1)
+                           for i, ln in enumerate(ns.lanes)) and \
+                            satisfiable(s2):
+                        yield self.binop(e.op, conc(l, s2), conc(r, s2)), \
+                            e2, s2
         elif isinstance(e, ast.Compare):
             if len(e.ops) != 1:
                 # a < b < c  ==  a < b and b < c (operands here are names,
@@ -870,6 +938,16 @@ class Interp:
                 yield from self.ev(e.body if b else e.orelse, env2, st2, ctx)
         elif isinstance(e, ast.Call):
             yield from self.call(e, env, st, ctx)
+        elif isinstance(e, (ast.ListComp, ast.GeneratorExp, ast.SetComp)):
+            for v, e2, s2 in self._comp(e.elt, list(e.generators), env, st,
+                                        ctx):
+                # the comprehension has its own scope: keep the outer env
+                yield v, env, s2
+        elif isinstance(e, ast.DictComp):
+            pair = ast.Tuple([e.key, e.value], ast.Load())
+            for v, e2, s2 in self._comp(pair, list(e.generators), env, st,
+                                        ctx):
+                yield (v if isinstance(v, Raise) else dict(v)), env, s2
         elif isinstance(e, ast.JoinedStr):
             yield Opaque("fstr"), env, st
         elif isinstance(e, ast.Dict):
@@ -894,11 +972,7 @@ class Interp:
             v = self.folder.eval(b.value, {}, b.mod)
             if v is UNKNOWN:
                 return Opaque("modexpr")
-            if isinstance(v, FClassRef):
-                return ClsRef(v.cls)
-            if isinstance(v, EnumMember):
-                return v.value
-            return v
+            return self._convf(v, getattr(b, "name", "") or "module table")
         if b.kind == "classattr":
             owner, name, node = b.value
             v = self.folder.class_attr(owner, name)
@@ -1044,7 +1118,7 @@ class Interp:
                 return
             for v, st2 in self.call_fn(fn, owner, [], {}, st, self_=recv,
                                        kind="property"):
-                yield v, env, st2
+                yield v, _sync_iv(env, st2), st2
             return
         if kind == "classmethod":
             rc = recv if isinstance(recv, ClsRef) else ClsRef(
@@ -1107,6 +1181,16 @@ class Interp:
         if isinstance(op, ast.Add) and isinstance(l, (tuple, list)) and \
                 isinstance(r, (tuple, list)):
             return tuple(l) + tuple(r)
+        if isinstance(op, (ast.Add, ast.Sub, ast.Mult, ast.FloorDiv,
+                           ast.Mod)) and all(isinstance(
+                               x, (int, AInt, ABool)) for x in (l, r)):
+            free = []
+            for x in (l, r):
+                if not isinstance(x, int):
+                    free += [ln for ln in lanes_of(x) if ln not in (0, 1)
+                             and ln not in free]
+            if len(free) <= 8:
+                raise NeedSplit(free)
         raise Unsupported("operator %s on %r, %r" % (type(op).__name__, l,
                                                      r))
 
@@ -1118,6 +1202,9 @@ class Interp:
             if isinstance(l, Cmp) and isinstance(r, bool):
                 c = l if r else l.negate()
                 return c if isinstance(op, ast.Is) else c.negate()
+            if isinstance(l, ClsRef) and isinstance(r, ClsRef):
+                res = l.c is r.c
+                return res if isinstance(op, ast.Is) else not res
             symbolic = (AInt, Ref, Sym, IvInt, NonInt, ABool, ClsRef)
             if l is None or r is None or isinstance(l, bool) or \
                     isinstance(r, bool):
@@ -1312,6 +1399,25 @@ class Interp:
                         yield args[2], env, st
                     else:
                         raise
+            elif n == "dict":
+                d = dict(args[0]) if args else {}
+                d.update(kwargs)
+                yield d, env, st
+            elif n == "next":
+                seq = args[0]
+                if not isinstance(seq, (list, tuple)):
+                    raise Unsupported("next() over %r" % (seq,))
+                if seq:
+                    yield seq[0], env, st
+                elif len(args) > 1:
+                    yield args[1], env, st
+                else:
+                    raise Raise("StopIteration", node)
+            elif n in ("any", "all"):
+                seq = args[0]
+                if not isinstance(seq, (list, tuple)):
+                    raise Unsupported("%s() over %r" % (n, seq))
+                yield from self._anyall(n, list(seq), env, st)
             elif n == "list":
                 yield list(args[0]) if args else [], env, st
             elif n == "tuple":
@@ -1392,7 +1498,7 @@ class Interp:
         if isinstance(f, tuple) and f and f[0] == "fn":
             for v, st2 in self.call_fn(f[2], None, args, kwargs, st,
                                        kind="static", mod=f[1]):
-                yield v, env, st2
+                yield v, _sync_iv(env, st2), st2
             return
         if isinstance(f, Bound):
             self_ = f.self_
@@ -1400,7 +1506,7 @@ class Interp:
                     f.fn, f.owner, args, kwargs, st,
                     self_=self_ if f.kind != "staticmethod" else None,
                     kind=f.kind):
-                yield v, env, st2
+                yield v, _sync_iv(env, st2), st2
             return
         if isinstance(f, ClsRef):
             yield from self.instantiate(f.c, args, kwargs, env, st, node)
@@ -1455,7 +1561,77 @@ class Interp:
             return
         for v, st2 in self.call_fn(r[2], r[0], args, kwargs, st, self_=o,
                                    kind="inst"):
-            yield (v if isinstance(v, Raise) else o), env, st2
+            yield (v if isinstance(v, Raise) else o), _sync_iv(env, st2), st2
+
+    def _anyall(self, n, seq, env, st):
+        if not seq:
+            yield n == "all", env, st
+            return
+        for b, e2, s2 in self.truth(seq[0], env, st):
+            if isinstance(b, Raise):
+                yield b, e2, s2
+            elif (n == "any") == bool(b):
+                yield n == "any", e2, s2
+            else:
+                yield from self._anyall(n, seq[1:], e2, s2)
+
+    def _comp(self, e, gens, env, st, ctx):
+        """Eager evaluation of a comprehension: yields (list, env, st)."""
+        if not gens:
+            for v, e2, s2 in self.ev(e, env, st, ctx):
+                yield ([v] if not isinstance(v, Raise) else v), e2, s2
+            return
+        g = gens[0]
+        for it, e1, s1 in self.ev(g.iter, env, st, ctx):
+            if isinstance(it, Raise):
+                yield it, e1, s1
+                continue
+            it = s1.d(it) if isinstance(it, Ref) else it
+            if isinstance(it, Registry):
+                it = list(it.d)
+            if isinstance(it, dict):
+                it = list(it)
+            if not isinstance(it, (list, tuple, range, frozenset, set)):
+                raise Unsupported("comprehension over %r" % (it,))
+            yield from self._comp_items(e, g, gens[1:], list(it), e1, s1,
+                                        ctx)
+
+    def _comp_items(self, e, g, rest, items, env, st, ctx):
+        if not items:
+            yield [], env, st
+            return
+        first, others = items[0], items[1:]
+        e1, s1 = dict(env), st
+        self.assign(g.target, first, e1, s1, ctx)
+        if True:
+            # conditions
+            def conds(ifs, e_, s_):
+                if not ifs:
+                    yield True, e_, s_
+                    return
+                for b, e2, s2 in self.cond(ifs[0], e_, s_, ctx):
+                    if isinstance(b, Raise) or not b:
+                        yield b, e2, s2
+                    else:
+                        yield from conds(ifs[1:], e2, s2)
+            for b, e2, s2 in conds(list(g.ifs), e1, s1):
+                if isinstance(b, Raise):
+                    yield b, e2, s2
+                    continue
+                if not b:
+                    yield from self._comp_items(e, g, rest, others, e2, s2,
+                                                ctx)
+                    continue
+                for head, e3, s3 in self._comp(e, rest, e2, s2, ctx):
+                    if isinstance(head, Raise):
+                        yield head, e3, s3
+                        continue
+                    for tail, e4, s4 in self._comp_items(
+                            e, g, rest, others, e3, s3, ctx):
+                        if isinstance(tail, Raise):
+                            yield tail, e4, s4
+                        else:
+                            yield head + tail, e4, s4
 
     def isinst(self, v, t):
         if isinstance(t, tuple) and t and t[0] == "builtin":
@@ -1603,7 +1779,24 @@ class IvCmp:
             yield val ^ self.neg, e2, s2
 
 
+def _sync_iv(env, st):
+    """Caller's view after a call: interval refinements made by the callee
+    on a parameter value apply to the same value in the caller."""
+    if not st.ivref:
+        return env
+    env2 = None
+    for k, v in env.items():
+        if isinstance(v, IvInt):
+            n = st.ivref.get(v.name)
+            if n is not None and n is not v:
+                if env2 is None:
+                    env2 = dict(env)
+                env2[k] = n
+    return env2 if env2 is not None else env
+
+
 def _replace(env, st, old, new):
+    st.ivref[old.name] = new
     for k, v in list(env.items()):
         if v is old:
             env[k] = new
